@@ -179,15 +179,23 @@ CLAIMS = {
   "WellFormed(D) is proved for the generated data of all six static layouts by a decidable checker (wellFormedB_iff), giving validate_pi_iff_static_layouts with no hypothesis left. The dynamic layout's mod.rs is a hand-written model (tied by correspondence); only its assertion list and evaluators are translated.",
   "Lean 4 machine-checked proof over a translator-instantiated model + correspondence check", "7/C14"),
  'C17': ("proof",
-  "PARTIAL. Lean theorems (Props/C17.lean): every model function is total (termination checked by Lean); after config validation every loop "
-  "bound that derives from a NUMERIC field is a constant — <= 48 query samples, <= 14 FRI rounds, coset loops <= 16, exponentiation <= 256 "
-  "squarings, diluted product 15 steps — and every other loop is bounded by the length of a list in the proof (Merkle walk <= |queue|+|auths|, "
-  "next-layer outputs <= |queries| x coset size); cost_bound_partial: an annotated per-phase cost formula is <= A_L + B_L x size(proof); "
-  "without validation the sampling loop IS value-driven (example). Wall time and memory cannot be exhibited by the model: every extreme-value "
-  "mutant (each numeric field in {0,1,2,48,49,2^16..2^128,P-1}, alone and with consistent re-declarations) is also run in an isolated child "
-  "process of the REAL verifier under a wall-clock and address-space limit and must stay within a fixed multiple of the honest run.",
-  "No instrumented interpreter ties the cost formula to the model's step count (UNPROVED block in the file); hash/callback costs are parameters; time/RSS are measured, not proved.",
-  "Lean 4 machine-checked proof (partial) + isolated-process time/RSS measurement of the real verifier", "7/C17"),
+  "PARTIAL (time/RSS of the Rust binary are measured, not proved). Lean theorems (Props/C17.lean): every model function is total (termination "
+  "checked by Lean); after config validation every loop bound that derives from a NUMERIC field is a constant — <= 48 query samples, <= 14 FRI "
+  "rounds, coset loops <= 16, exponentiation <= 256 squarings, diluted product 15 steps — and every other loop is bounded by the length of a list "
+  "in the proof. INSTRUMENTED SEMANTICS (Proofs/Ticked*.lean): a step-counting twin `verifyT` of the WHOLE pipeline model (config validation, "
+  "domains, public-input hash, stark_commit, query sampling / sort / dedup, three table decommitments with the Merkle walk, queries_to_points, the "
+  "DEEP loop, fri_commit / fri_verify with all layers and the last layer) in a writer monad: one tick per loop iteration / recursive call, per hash "
+  "call and per absorbed element, 256 per pow/inverse, one per list element produced or walked by a bulk operation (so ticks also bound list "
+  "cells allocated). Proved: verify_ticked_erases (the twin's result IS Stark.verify's — the counter is the only difference); verify_ticks_le_cost "
+  "(for EVERY proof value ticks <= verifyCost', value-driven factors written as the fields' values); verify_ticks_bounded (once validate accepts, "
+  "ticks <= verifyCost' <= A_L + B_L x size(proof), constants depending only on the layout); sampling_ticks_value_driven (without validation the "
+  "sampling loop alone takes 2n ticks for any n). The older hand-assembled formula (cost_bound_partial) is kept; the instrumented semantics showed "
+  "it under-counted (six pow/inv in StarkDomains::new, 2^height / 2^step exponentiations, per-value copies). Wall time and memory of the REAL code: every "
+  "extreme-value mutant (each numeric field in {0,1,2,48,49,2^16..2^128,P-1}, word-size aliases, consistent re-declarations, hostile dynamic "
+  "parameters) is run in an isolated child process of the real verifier under a wall-clock and address-space limit and must stay within a fixed "
+  "multiple of the honest run.",
+  "Parameters, not proved: hash-function cost (one tick per call + per absorbed element); the layout callbacks' step counts enter through KF with the hypothesis KF.BoundedBy K; fixed-width field arithmetic, List.length, indexing and the straight-line fri_formula are unit/constant cost by convention; the tick semantics is the MODEL's (tied to the Rust by the correspondence check and the isolated time/RSS runs).",
+  "Lean 4 machine-checked proof (instrumented step-counting semantics of the pipeline model, erasure + linear bound) + isolated-process time/RSS measurement of the real verifier", "7/C17"),
  'C18': ("proof",
   "Lean theorems (Props/C18.lean): for ARBITRARY layout ops that do not panic on the arguments the pipeline passes them, StarkProof::verify's "
   "model never panics — every unwrap / assert / index / checked subtraction of stark, commit, verify, oods, fri, layer, formula, first/last "
